@@ -69,3 +69,15 @@ func zzValue(label string, kind int) interface{} {
 }
 
 func zzScope() parser.Scope { return scope.NewScope(scope.GlobalScope) }
+
+// zzRunTid is zzRun with an explicit thread id.
+func zzRunTid(erp *ECALRuntimeProvider, src string, vs parser.Scope, tid uint64) (interface{}, error) {
+	ast, err := parser.ParseWithRuntime("t", src, erp)
+	if err != nil {
+		return nil, err
+	}
+	if err = ast.Runtime.Validate(); err != nil {
+		return nil, err
+	}
+	return ast.Runtime.Eval(vs, make(map[string]interface{}), tid)
+}
